@@ -111,8 +111,11 @@ private theorem coerceCore_sound {reg : Reg} (hreg : RegOK reg) {rec : Ty → JV
         unfold parseId at h
         split at h <;> first | (cases h; exact ⟨.id hk, fun _ => rfl⟩) | cases h
       · rename_i hk
-        cases h
-        exact ⟨.custom hk, fun _ => pvOfJson_notNone hnull'⟩
+        have hv : reg.customParse n v = .value pv := by
+          cases hp : reg.customParse n v <;> simp [hp, ParseOut.toR] at h
+          subst h; rfl
+        have hok : CustomOK reg n pv := .inl ⟨v, hnull', hv⟩
+        exact ⟨.custom hk hok, fun _ => hreg.customNotNone n pv hk hok⟩
       · rename_i vs hk
         split at h
         · obtain ⟨p, hp, rfl, _⟩ := getValue_mem h
@@ -169,8 +172,7 @@ private theorem parseLiteral_sound {reg : Reg} {n : String} {k : NamedT} (hk : r
   cases k with
   | enum vs => exact absurd rfl (hne vs)
   | input fs => exact absurd rfl (hni fs)
-  | custom =>
-    cases l <;> simp [parseLiteral] at h <;> subst h <;> exact ⟨.custom hk, rfl⟩
+  | custom => simp [parseLiteral] at h
   | int =>
     cases l <;> simp only [parseLiteral] at h <;> split at h <;> try cases h
     obtain ⟨rfl, hr⟩ := rangeChecked_ok h; exact ⟨.int hk hr, rfl⟩
@@ -308,7 +310,16 @@ private theorem vfaCore_sound {reg : Reg} (hreg : RegOK reg) {vars : Option (Lis
         · obtain ⟨p, hp, rfl, _⟩ := getValue_mem h
           exact ⟨.enum hk hp, fun _ => hreg.enumNotNone n vs hk p hp⟩
         · cases h
-      · rename_i k hni hne hk
+      · rename_i hk
+        split at h
+        · rename_i hsl
+          have hv : reg.customParseLiteral n l = .value pv := by
+            cases hp : reg.customParseLiteral n l <;> simp [hp, ParseOut.toR] at h
+            subst h; rfl
+          have hok : CustomOK reg n pv := .inr ⟨l, hsl, hv⟩
+          exact ⟨.custom hk hok, fun _ => hreg.customNotNone n pv hk hok⟩
+        · cases h
+      · rename_i k hni hne hnc hk
         split at h
         · have := parseLiteral_sound hk (fun vs hv => hne vs hv) (fun fs hv => hni fs hv) h
           exact ⟨this.1, fun _ => this.2⟩
